@@ -18,7 +18,7 @@ def jobs(rng, thorough):
 
 
 def run(ctx: core.Ctx):
-    ctx.lean_stage(extra_props=("C06b", "C07a", "Tie", "L4Live"))
+    ctx.lean_stage(extra_props=("C06b", "C07a", "C14t", "Tie", "L4Live"))
     js = []
     results = b2check.run_b2(ctx, lambda rng, th: js.extend(jobs(rng, th)) or js, ["C14", "APIrun"], label="api initialisation with faults")
     b2check.api_fold(ctx, results, js)
